@@ -362,6 +362,10 @@ func runB(body, outcome string) string {
 	b := jhttp.NewBridge(anyAssigner{h}, &jhttp.BridgeOptions{Server: &jrpc2.ServerOptions{DisableBuiltin: true}})
 	defer b.Close()
 	req := httptest.NewRequest(http.MethodPost, "http://localhost/", bytes.NewReader([]byte(body)))
+	// a reply the bridge's server never sends must not hang the run (finding F16)
+	rctx, cancel := context.WithTimeout(context.Background(), 10*time.Second)
+	defer cancel()
+	req = req.WithContext(rctx)
 	req.Header.Set("Content-Type", "application/json")
 	rec := httptest.NewRecorder()
 	b.ServeHTTP(rec, req)
@@ -717,6 +721,14 @@ func wireMain(cfg *config, which string) {
 	emitE("R", false, []absMsg{{id: "1", rmode: "r", result: "null"}})
 	emitE("R", false, []absMsg{{id: "1", err: &absErr{code: 0}}})
 	emitE("R", false, []absMsg{{id: "1", err: &absErr{code: -1, msg: "\xffm<", data: "\n{ }\n"}}})
+	// F16/F17: an error whose data are not JSON is sent without them; its batch is not lost
+	emitE("S", false, []absMsg{{id: "1", err: &absErr{code: 5, msg: "x", data: "{bad"}}})
+	emitE("S", true, []absMsg{{id: "1", err: &absErr{code: 5, msg: "x\xff<", data: "[1,]"}}})
+	emitE("S", true, []absMsg{{id: "1", rmode: "r", result: "true"}, {id: "2", err: &absErr{code: 7, msg: "no", data: "{bad"}}})
+	emitE("S", true, []absMsg{{id: `"a"`, err: &absErr{code: 7, msg: "no", data: "\"unterminated"}}, {id: "2", err: &absErr{code: -32000, data: " [ 1 ] "}},
+		{id: "3", rmode: "r", result: "null"}})
+	emitE("R", false, []absMsg{{id: "1", err: &absErr{code: 5, msg: "x", data: "{bad"}}})
+	emitE("R", false, []absMsg{{id: "1", err: &absErr{code: -32097, msg: "\xffm", data: "01"}}})
 	for i := 0; i < nE; i++ {
 		switch r.intn(11) {
 		case 0, 1, 2: // client single
@@ -761,6 +773,9 @@ func wireMain(cfg *config, which string) {
 				m := absMsg{id: id, rmode: "r"}
 				if r.chance(2, 5) {
 					m.err = genAbsErr(r)
+					if r.chance(1, 25) {
+						m.err.data = pick(r, []string{"{bad", "[1,]", "01", `"unterminated`, " ", "nul", "1 2", "\xff"})
+					}
 				} else {
 					m.rmode, m.result = genRawValue(r)
 				}
@@ -804,6 +819,9 @@ func wireMain(cfg *config, which string) {
 		emitB("["+s+"]", "-")
 		emitB(" "+s+" ", "-")
 	}
+	// F16: the handler's error carries data that are not JSON
+	emitB(`{"jsonrpc":"2.0","id":1,"method":"m"}`, "X5:"+hexf("x")+":"+hexf("{bad"))
+	emitB(`[{"jsonrpc":"2.0","id":1,"method":"m"},{"jsonrpc":"2.0","id":"b","method":"m"}]`, "X-32000:"+hexf("no")+":"+hexf("[1,]"))
 	for i := 0; i < len(single); i++ {
 		emitB("["+single[i]+","+single[(i+3)%len(single)]+", "+single[(i+7)%len(single)]+"]", "-")
 	}
